@@ -380,13 +380,118 @@ func vc13LimitOf(path string, hashMax int) (limit int) {
 // vc13InvalidEntryTypes are the entry types that toInternal must skip.
 var vc13InvalidEntryTypes = []string{"nil", "emptykey", "badkey", "longkey", "emptyurl", "badurl", "fileurl"}
 
+// vc13MistypedEntryTypes are the entry types that are valid JSON of the wrong
+// type: an element of the filters array that is not an object, or an object
+// with a field of the wrong type.  encoding/json reports a type error for
+// them after it has decoded the rest, so it is the code's choice whether the
+// index is refused or the entry is skipped; both keep the statement.
+var vc13MistypedEntryTypes = []string{"typeerr", "urlnum", "urlobj", "bothnum", "el-string", "el-number", "el-bool", "el-array"}
+
+// vc13Shape is an index document that is valid JSON of the wrong shape.
+type vc13Shape struct {
+	name string
+
+	// family is "top" (the top-level value is not an object with filters)
+	// or "filters" (the value of filters is not an array).
+	family string
+
+	// nullish is set if the document says nothing where the array is
+	// expected (null, a missing key): encoding/json reads that as "no
+	// entries" without any error, and whether such a document is an empty
+	// index or a broken one is not decided here; see the report.
+	nullish bool
+}
+
+// vc13Shapes are the wrong shapes.
+var vc13Shapes = []vc13Shape{
+	{name: "top-string", family: "top"},
+	{name: "top-number", family: "top"},
+	{name: "top-bool", family: "top"},
+	{name: "top-array", family: "top"},
+	{name: "top-null", family: "top", nullish: true},
+	{name: "top-empty-object", family: "top", nullish: true},
+	{name: "top-object-without-filters", family: "top", nullish: true},
+	{name: "filters-string", family: "filters"},
+	{name: "filters-number", family: "filters"},
+	{name: "filters-bool", family: "filters"},
+	{name: "filters-object", family: "filters"},
+	{name: "filters-null", family: "filters", nullish: true},
+}
+
+// vc13ShapeByName returns the shape, nil if name is not one.
+func vc13ShapeByName(name string) (sh *vc13Shape) {
+	for i := range vc13Shapes {
+		if vc13Shapes[i].name == name {
+			return &vc13Shapes[i]
+		}
+	}
+
+	return nil
+}
+
+// vc13ShapeDoc returns the document of the shape; the valid entries of all
+// three rule lists are in it wherever there is room for them, so that it
+// looks as much like an index as the shape allows.
+func vc13ShapeDoc(sh *vc13Shape, base string, ver int) (b []byte) {
+	var entries []any
+	byKey := map[string]any{}
+	for _, name := range vc13RuleNames {
+		e := map[string]any{"filterKey": "vc13_" + name, "downloadUrl": base + vc13SlotByName(name).path}
+		entries = append(entries, e)
+		byKey["vc13_"+name] = e
+	}
+
+	var doc any
+	switch sh.name {
+	case "top-string":
+		doc = fmt.Sprintf("temporarily unavailable, v%d", ver)
+	case "top-number":
+		doc = 503000 + ver
+	case "top-bool":
+		doc = true
+	case "top-array":
+		doc = entries
+	case "top-null":
+		doc = nil
+	case "top-empty-object":
+		doc = map[string]any{}
+	case "top-object-without-filters":
+		doc = map[string]any{"lists": entries, "vc13_version": ver}
+	case "filters-string":
+		doc = map[string]any{"filters": "temporarily unavailable", "vc13_version": ver}
+	case "filters-number":
+		doc = map[string]any{"filters": 503, "vc13_version": ver}
+	case "filters-bool":
+		doc = map[string]any{"filters": false, "vc13_version": ver}
+	case "filters-object":
+		doc = map[string]any{"filters": byKey, "vc13_version": ver}
+	case "filters-null":
+		doc = map[string]any{"filters": nil, "vc13_version": ver}
+	default:
+		panic("vc13: bad shape " + sh.name)
+	}
+
+	b, err := json.MarshalIndent(doc, "", " ")
+	if err != nil {
+		panic(err)
+	}
+
+	return append(b, '\n')
+}
+
 // vc13IdxInfo is what an index body means.
 type vc13IdxInfo struct {
 	// class is valid (all entries valid and distinct), partial (some entries
 	// invalid or duplicated), ambiguous (an entry of the wrong JSON type:
 	// the statement does not say whether that is an invalid entry or an
-	// invalid index) or garbage (not JSON).
+	// invalid index), garbage (not JSON, or JSON of a shape that is not an
+	// index: the lists must stay) or nullish (JSON that says nothing where
+	// the array of entries is expected: the lists stay or all go, see
+	// vc13Shape).
 	class string
+
+	// shape is the name of the wrong shape, if any.
+	shape string
 
 	// urls maps a rule-list name to the paths of its valid entries, in
 	// index order.
@@ -459,6 +564,30 @@ func vc13IndexBody(base string, ver int, entries []vc13Entry, notJSON bool, pad 
 		case "typeerr":
 			worse("ambiguous")
 			fls = append(fls, map[string]any{"filterKey": 7, "downloadUrl": base + "/rl/none"})
+		case "urlnum":
+			worse("ambiguous")
+			fls = append(fls, map[string]any{"filterKey": fmt.Sprintf("vc13_urlnum_%d", i), "downloadUrl": 8080})
+		case "urlobj":
+			worse("ambiguous")
+			fls = append(fls, map[string]any{
+				"filterKey":   fmt.Sprintf("vc13_urlobj_%d", i),
+				"downloadUrl": map[string]any{"href": base + "/rl/none"},
+			})
+		case "bothnum":
+			worse("ambiguous")
+			fls = append(fls, map[string]any{"filterKey": 1, "downloadUrl": 2})
+		case "el-string":
+			worse("ambiguous")
+			fls = append(fls, base+"/rl/none")
+		case "el-number":
+			worse("ambiguous")
+			fls = append(fls, 17)
+		case "el-bool":
+			worse("ambiguous")
+			fls = append(fls, true)
+		case "el-array":
+			worse("ambiguous")
+			fls = append(fls, []any{map[string]any{"filterKey": "vc13_nested", "downloadUrl": base + "/rl/none"}})
 		default:
 			panic("vc13: bad entry type " + e.T)
 		}
